@@ -169,6 +169,26 @@ fn diag_signature(warm: &CliResult, cd: &[vproj::Diag], wd: &[vproj::Diag]) -> &
     {
         return "diagnostics/cached-warnings-overwritten-by-rederived-subset";
     }
+    // the fresh run reports one identical warning several times and the warm
+    // run fewer (but at least once); everything else agrees
+    {
+        let mut count: BTreeMap<&vproj::Diag, (usize, usize)> = BTreeMap::new();
+        for x in cd {
+            count.entry(x).or_default().0 += 1;
+        }
+        for x in wd {
+            count.entry(x).or_default().1 += 1;
+        }
+        let differing: Vec<(&vproj::Diag, (usize, usize))> =
+            count.into_iter().filter(|(_, (a, b))| a != b).collect();
+        if !differing.is_empty()
+            && differing
+                .iter()
+                .all(|(d, (a, b))| d.severity == "warning" && *a >= 2 && *b >= 1 && b < a)
+        {
+            return "diagnostics/fresh-run-reports-identical-warning-twice";
+        }
+    }
     if warm.code != Some(0) && errs(cd) == errs(wd) && !errs(cd).iter().all(|e| e.code.is_empty()) {
         // the run failed on an error; only the accompanying warnings differ
         "diagnostics/warnings-differ-on-run-aborted-by-error"
@@ -589,7 +609,7 @@ pub fn run(ctx: &Ctx) {
     if let Some(k) = std::env::var("VERIF_C04_CASES").ok().and_then(|x| x.parse().ok()) {
         n = k; // development aid
     }
-    ctx.run("history", CaseCfg::cases(n).choices(1200).timeout_s(900).shrink_iters(30), move |d| {
+    ctx.run("history", CaseCfg::cases(n).choices(1200).timeout_s(3600).shrink_iters(30), move |d| {
         one_history(d, thorough)
     });
     ctx.assume("the `veryl` binary is /repo's own main.rs built by harness package vcli with the harness profile (opt-level 2, no debug assertions)");
